@@ -22,6 +22,7 @@ from sa import asdl
 from sa import core
 from sa import pat
 from sa import pycfg
+from sa import rules_qn
 from sa import rules_trav
 from sa import setalg
 from sa.formula import atom, implies, equivalent, TRUE
@@ -80,6 +81,8 @@ def check(model, rep, tier):
            'qualified-name resolver visits every field that can hold a symbol, '
            'on every path', floor=25)
   rep.rule('ACT-ORDER', 'visit order the scoping rules rely on', floor=1)
+  rep.rule('QN-FRESH', 'qualified names are recomputed on every resolve', floor=4)
+  rules_qn.fresh(model, rep, 'QN-FRESH')
   rep.rule('ACT-FRAME', 'manually entered state frames are left on every path', floor=1)
 
   cls = model.cls(ACT, 'ActivityAnalyzer')
